@@ -84,6 +84,7 @@ func main() {
 	params := flag.String("params", "", "k=v,k=v")
 	shard := flag.String("shard", "", "i/n")
 	budget := flag.Duration("budget", 0, "stop after this long and write the unexplored prefixes to the result (pending)")
+	bfs := flag.Bool("bfs", false, "explore breadth-first")
 	resume := flag.String("resume", "", "JSON file with a list of prefixes to explore instead of starting at the root")
 	witnesses := flag.Int("witnesses", 0, "number of ok-path input models to emit for native cross-validation")
 	ov := overlayFlag{}
@@ -183,6 +184,7 @@ func main() {
 		}
 	}
 	e.Budget = *budget
+	e.BFS = *bfs
 	if *resume != "" {
 		b, err := os.ReadFile(*resume)
 		if err != nil {
